@@ -53,6 +53,7 @@ def plan(tier, seed):
         for exists in (True, False):
             specs.append({'kind': 'stream', 'fmt': fmt, 'exists': exists, 'verbosity': 'debug'})
     specs.append({'kind': 'internal', 'verbosity': 'debug'})
+    specs.append({'kind': 'faultfree'})
     specs.append({'kind': 'cli', 'entry': 'luamin_fmt', 'verbosity': 'debug'})
     specs.append({'kind': 'cli', 'entry': 'build', 'verbosity': 'debug'})
     specs.append({'kind': 'png_rows', 'exists': True})
@@ -539,6 +540,109 @@ def run_internal(ctx, rng, spec, root):
     ctx.sample({'internal_failure_sources': ['oversize_code', 'missing_names_file', 'build_unparseable_source', 'build_missing_require']})
 
 
+class PlainDest(Dest):
+    """Snapshot oracle for a destination the harness spells itself (no files of its own)."""
+
+    def __init__(self, ctx, path, fmt):
+        self.ctx = ctx
+        self.readonly = False
+        self.empty = False
+        self.dir = os.path.dirname(path)
+        self.path = path
+        self.fmt = fmt
+        self.exists = os.path.exists(path)
+        self.snap = self.snapshot()
+
+
+FF_CODES = ('no_lua_section', 'empty_lua_section', 'one_newline', 'comment_only', 'ordinary')
+FF_SPELLINGS = ('bare', 'dot_slash', 'subdir_relative', 'absolute', 'parent_relative')
+FF_COMMANDS = ('luamin', 'luafmt', 'writep8', 'luafmt_overwrite', 'build', 'to_file')
+
+
+def run_faultfree(ctx, rng, spec, root, only=None):
+    """No injected fault: the commands and the library entry run on unusual but legitimate carts (no code at all, an empty Lua section,
+    one line break, a comment) with the destination spelled as a bare file name, ./name, sub/name, ../name or an absolute path, existing or
+    not.  Whenever a call raises or returns an error code -- whatever made it fail -- the destination has to be as it was."""
+    from pico8 import tool
+    from pico8.game import file as p8file
+    n = 0
+    here = os.getcwd()
+    try:
+        for code_kind in FF_CODES:
+            for fmt in ('p8', 'png'):
+                if fmt == 'png' and code_kind == 'no_lua_section':
+                    continue
+                for cmd in FF_COMMANDS:
+                    for si, spelling in enumerate(FF_SPELLINGS):
+                        for exists in (False, True):
+                            if only is not None and (code_kind, fmt, cmd, spelling, exists) != only:
+                                continue
+                            if only is None and fmt == 'png' and (si + len(cmd) + exists) % 3:
+                                continue     # (the PNG encoder is slow: a third of the grid)
+                            n += 1
+                            work = os.path.join(root, 'ff%d' % n)
+                            sub = os.path.join(work, 'sub')
+                            inner = os.path.join(sub, 'inner')
+                            os.makedirs(inner)
+                            ext = '.p8' if fmt == 'p8' else '.p8.png'
+                            base = carts.cart_basename(n)
+                            code = {'no_lua_section': b'', 'empty_lua_section': b'', 'one_newline': b'\n', 'comment_only': b'-- nothing here\n',
+                                    'ordinary': carts.simple_lua(rng, 200)}[code_kind]
+                            regions, _ = carts.random_regions(rng, 'sparse')
+                            if fmt == 'p8':
+                                data = rc.write_p8(regions, code, version=rng.choice((8, 33, 41)), final_newline=False,
+                                                   omit=('lua',) if code_kind == 'no_lua_section' else ())
+                            else:
+                                data = rc.write_p8png(regions, rc.raw_code_area(code), 8)
+                            inp = os.path.join(sub, base + ext)
+                            with open(inp, 'wb') as fh:
+                                fh.write(data)
+                            out_name = {'luamin': base + '_fmt' + ext, 'luafmt': base + '_fmt' + ext, 'writep8': base + '_fmt.p8',
+                                        'luafmt_overwrite': base + ext, 'build': 'built' + ext, 'to_file': 'saved' + ext}[cmd]
+                            out = os.path.join(sub, out_name)
+                            if exists and not os.path.exists(out):
+                                shutil.copy(inp, out)
+                            if not exists and os.path.exists(out):
+                                continue     # (luafmt --overwrite: the destination is the input)
+                            cwd, prefix = {'bare': (sub, ''), 'dot_slash': (sub, './'), 'subdir_relative': (work, 'sub/'),
+                                           'absolute': (root, sub + '/'), 'parent_relative': (inner, '../')}[spelling]
+                            arg_in, arg_out = prefix + base + ext, prefix + out_name
+                            if cmd == 'to_file':
+                                g = carts.make_game(regions, code=code, version=8)
+                                call = lambda: p8file.to_file(g, arg_out)
+                            elif cmd == 'build':
+                                call = lambda: tool.main(QUIET + ['build', arg_out, '--lua', arg_in])
+                            elif cmd == 'luafmt_overwrite':
+                                call = lambda: tool.main(QUIET + ['luafmt', '--overwrite', arg_in])
+                            else:
+                                call = lambda: tool.main(QUIET + [cmd, arg_in])
+                            case = {'injector': 'faultfree', 'code_kind': code_kind, 'fmt': fmt, 'cmd': cmd, 'spelling': spelling, 'exists': exists}
+                            dest = PlainDest(ctx, out, fmt)
+                            os.chdir(cwd)
+                            failure = None
+                            try:
+                                rcode = call()
+                                if rcode not in (0, None):
+                                    failure = 'returned %r' % (rcode,)
+                            except BaseException as e:
+                                failure = 'raised %r' % (e,)
+                            finally:
+                                os.chdir(here)
+                            ctx.case(repr(sorted(case.items())), nontrivial=True)
+                            ctx.monitor('faultfree_calls')
+                            for k in ('code_kind', 'cmd', 'spelling'):
+                                ctx.feature('faultfree_%s:%s' % (k, case[k]))
+                            ctx.feature('faultfree_dest_%s' % ('exists' if exists else 'absent'))
+                            if failure is not None:
+                                ctx.monitor('faultfree_calls_that_failed')
+                                dest.judge(case, '%s %s (no fault injected; it %s)' % (cmd, arg_in if cmd != 'to_file' else arg_out, failure))
+                            shutil.rmtree(work, ignore_errors=True)
+    finally:
+        os.chdir(here)
+    ctx.sample({'faultfree': 'luamin / luafmt / writep8 / luafmt --overwrite / build / file.to_file on carts without code, destination spelled bare, '
+                             './, sub/, ../ and absolute'})
+
+
 QUIET = ['-q']          # the verbosity option the command-line entries are given (run_shard switches it per shard)
 VERBOSITY = ['quiet']
 
@@ -555,7 +659,7 @@ def run_shard(spec, ctx):
     try:
         with Verbosity(level):
             {'stream': run_stream, 'writer_section': run_writer_section, 'png_rows': run_png_rows, 'cli': run_cli,
-             'failpoints': run_failpoints, 'internal': run_internal}[spec['kind']](ctx, rng, spec, root)
+             'failpoints': run_failpoints, 'internal': run_internal, 'faultfree': run_faultfree}[spec['kind']](ctx, rng, spec, root)
     finally:
         QUIET[:] = ['-q']
         VERBOSITY[0] = 'quiet'
@@ -573,6 +677,9 @@ def replay(case, ctx):
     fsmon.install()
     try:
         fmt, exists, inj = case.get('fmt', 'p8'), case.get('exists', True), case['injector']
+        if inj == 'faultfree':
+            run_faultfree(ctx, rng, {}, root, only=(case['code_kind'], fmt, case['cmd'], case['spelling'], exists))
+            return
         entry = case.get('entry', 'file')
         dest = Dest(ctx, rng, fmt, exists, root, empty=case.get('empty', False))
         g = new_game(rng)
@@ -630,6 +737,10 @@ def gates(m, tier):
         missed.append('writer exception types %d, stale _fmt bystander %d' % (f.get('writer_exception_types', 0), f.get('stale_fmt_file_next_to_cart', 0)))
     if f.get('cli_first_invocation_fails', 0) < 10:
         missed.append('first-ever invocation on a cart fails: %d' % f.get('cli_first_invocation_fails', 0))
+    low = [k for k in (['faultfree_code_kind:' + c for c in FF_CODES] + ['faultfree_spelling:' + c for c in FF_SPELLINGS] +
+                       ['faultfree_cmd:' + c for c in FF_COMMANDS] + ['faultfree_dest_exists', 'faultfree_dest_absent']) if f.get(k, 0) < 10]
+    if low or mon.get('faultfree_calls', 0) < 200:
+        missed.append('fault-free calls on unusual carts / destination spellings: %d (under-driven: %s)' % (mon.get('faultfree_calls', 0), low))
     if f.get('cli_luafmt_stream_index', 0) < 5 or f.get('cli_build_stream_index', 0) < 5:
         missed.append('CLI overwrite paths under-driven')
     return missed
